@@ -60,20 +60,17 @@ def dvKeys : List Op → List Key
   | .addDv k _ _ :: r => k :: dvKeys r
   | _ :: r => dvKeys r
 
-/-- One arm of the `match op` in `commit_changes_with_custom_manifest`; `none` = the `unwrap`
-in `Snapshot::delete_rowset` / `delete_dv` panics. -/
+/-- One arm of the `match op` in `commit_changes_with_custom_manifest`.  Since /repo's fix of
+`Snapshot::delete_rowset` / `delete_dv` a `DeleteRowSet` / `DeleteDV` for something that is
+already gone is a no-op (before, the `unwrap` on the missing table entry panicked), so every arm
+succeeds; the `Option` is kept for the shape of `applyOps` (`none` = phase A panics). -/
 def applyOp (s : Snap) : Op → Option Snap
   | .create _ => some s
   | .drop _ => some s
   | .add k _ => some { s with rs := k :: s.rs }
-  | .del k =>
-      if s.rs.any (fun x => x.1 == k.1) then some { s with rs := s.rs.filter (fun x => x != k) }
-      else none
+  | .del k => some { s with rs := s.rs.filter (fun x => x != k) }
   | .addDv k d p => some { s with dvs := (k, d, p) :: s.dvs }
-  | .delDv k d =>
-      if s.dvs.any (fun x => x.1 == k) then
-        some { s with dvs := s.dvs.filter (fun x => !(x.1 == k && x.2.1 == d)) }
-      else none
+  | .delDv k d => some { s with dvs := s.dvs.filter (fun x => !(x.1 == k && x.2.1 == d)) }
 
 def applyOps (s : Snap) : List Op → Option Snap
   | [] => some s
